@@ -216,6 +216,9 @@ def to_blackbird(prog: Program, version: str = "1.0") -> blackbird.BlackbirdProg
                     if any(map(isMeasuredParameter, a.free_symbols)):
                         # check if there are any measured parameters in `a`
                         a = blackbird.RegRefTransform(a)
+                    elif not a.free_symbols:
+                        # numeric SymPy expression (e.g., from a decomposition), store its value
+                        a = sfpar.par_evaluate(a)
                     else:
                         a = str(a)
                 op["args"].append(a)
